@@ -154,11 +154,12 @@ Theorem c08_rcdata_element_reads_back : forall name text rest a sc t o cd,
                           (OEnd (lower_str name) [] false :: singles_r text ++ o) cd false).
 Proof. exact rcdata_element_roundtrip. Qed.
 
-(* WHOLE STREAMS WITH raw-text and RCDATA elements.  The tokenizer never leaves the data state by itself: the parser
+(* WHOLE STREAMS WITH raw-text, RCDATA and script elements.  The tokenizer never leaves the data state by itself: the parser
    switches it after certain start tags.  [reads] (Proofs/C08units.v) spells that out -- after the start tag of style,
-   xmp, iframe, noembed, noframes the tokenizer goes on in RAWTEXT, after title and textarea in RCDATA -- and for EVERY
-   stream of safe tokens and such elements (text of raw-text elements without "</" and U+0000, ANY text without U+0000
-   in title/textarea) what Ser writes is read back unit by unit as exactly those tokens *)
+   xmp, iframe, noembed, noframes the tokenizer goes on in RAWTEXT, after title and textarea in RCDATA, after script in
+   script data -- and for EVERY stream of safe tokens and such elements (text of raw-text elements without "</" and
+   U+0000, of script also without "<!", ANY text without U+0000 in title/textarea) what Ser writes is read back unit by
+   unit as exactly those tokens *)
 Theorem c08_units_roundtrip : forall o, qc_ok o -> forall us txt errs rest cu tm out0 cd,
   Forall (unit_ok o) us -> ser_loop o false (flat_map flatten us) = Some (txt, errs) ->
   exists k', reads o us (mk_tk dataState (txt ++ rest) cu tm out0 cd false) k' /\
@@ -194,7 +195,7 @@ Proof. split; vm_compute; reflexivity. Qed.
 (* PARTIAL.  Proved: text, quoted and unquoted values, tag and attribute names, start and end tags, comments,
    doctypes, and the lift to whole streams of these without raw-text elements.  and, element by element, the content and end tag of raw-text, script (without "<!") and RCDATA elements read in
    the state the parser switches to.  and the lift of raw-text and RCDATA elements to whole streams with the parser's state switches made
-   explicit (c08_units_roundtrip).  Not proved: script elements inside such streams, script text containing "<!"
+   explicit (c08_units_roundtrip).  Not proved: script text containing "<!"
    (refuted in general, see above), entity tokens, identifiers containing ">"; these are decided on every run by
    re-tokenizing the real serializer's output with S_tok (extracted) for generated trees x options -- a test,
    with seven listed findings.  Ser itself is a hand model tied to the code by the correspondence run. *)
